@@ -232,10 +232,16 @@ type gsSlicer struct {
 	tracked map[types.Object]bool
 	// condVars: local variables read by the headers kept in the current pass
 	condVars map[types.Object]bool
+	// round 3: single-use temporaries. `t := <expr>` immediately followed by a statement that hands t (its only use) to a call
+	// as an argument is printed as if the expression stood in the argument's place: inlineRHS[t] is the expression, the
+	// defining statement is skipped. Moving the evaluation of an argument into a temporary (or back) does not change a slice.
+	inlineRHS map[types.Object]ast.Expr
+	skipStmt  map[ast.Stmt]bool
 }
 
 func gsNewSlicer(p *packages.Package, fd *ast.FuncDecl) *gsSlicer {
-	s := &gsSlicer{p: p, localIdx: map[types.Object]int{}, tracked: map[types.Object]bool{}, condVars: map[types.Object]bool{}}
+	s := &gsSlicer{p: p, localIdx: map[types.Object]int{}, tracked: map[types.Object]bool{}, condVars: map[types.Object]bool{},
+		inlineRHS: map[types.Object]ast.Expr{}, skipStmt: map[ast.Stmt]bool{}}
 	inside := func(o types.Object) bool {
 		if o == nil || !o.Pos().IsValid() {
 			return false
@@ -291,7 +297,88 @@ func gsNewSlicer(p *packages.Package, fd *ast.FuncDecl) *gsSlicer {
 		}
 		return true
 	})
+	s.findTemporaries(fd)
 	return s
+}
+
+// findTemporaries: see inlineRHS.
+func (s *gsSlicer) findTemporaries(fd *ast.FuncDecl) {
+	uses := map[types.Object]int{}
+	ast.Inspect(fd, func(n ast.Node) bool {
+		if id, ok := n.(*ast.Ident); ok {
+			if o := s.p.TypesInfo.Uses[id]; o != nil {
+				uses[o]++
+			}
+		}
+		return true
+	})
+	walk := func(list []ast.Stmt) {
+		for i, st := range list {
+			as, ok := st.(*ast.AssignStmt)
+			if !ok || as.Tok != token.DEFINE || len(as.Lhs) != 1 || len(as.Rhs) != 1 || i+1 >= len(list) {
+				continue
+			}
+			id, ok := as.Lhs[0].(*ast.Ident)
+			if !ok || id.Name == "_" {
+				continue
+			}
+			o := s.p.TypesInfo.Defs[id]
+			if o == nil || uses[o] != 1 {
+				continue
+			}
+			hasLit := false
+			ast.Inspect(as.Rhs[0], func(n ast.Node) bool {
+				if _, ok := n.(*ast.FuncLit); ok {
+					hasLit = true
+				}
+				return !hasLit
+			})
+			if hasLit {
+				continue
+			}
+			// the single use: a direct argument of a call, or the whole right-hand side of an assignment, in the NEXT statement
+			found := false
+			next := list[i+1]
+			switch next.(type) {
+			case *ast.ExprStmt, *ast.AssignStmt, *ast.ReturnStmt:
+				ast.Inspect(next, func(n ast.Node) bool {
+					if _, ok := n.(*ast.FuncLit); ok {
+						return false
+					}
+					if c, ok := n.(*ast.CallExpr); ok {
+						for _, a := range c.Args {
+							if aid, ok := a.(*ast.Ident); ok && s.p.TypesInfo.Uses[aid] == o {
+								found = true
+							}
+						}
+					}
+					if a, ok := n.(*ast.AssignStmt); ok {
+						for _, r := range a.Rhs {
+							if rid, ok := r.(*ast.Ident); ok && s.p.TypesInfo.Uses[rid] == o {
+								found = true
+							}
+						}
+					}
+					return true
+				})
+			}
+			if found {
+				s.inlineRHS[o] = as.Rhs[0]
+				s.skipStmt[st] = true
+			}
+		}
+	}
+	ast.Inspect(fd, func(n ast.Node) bool {
+		switch v := n.(type) {
+		case *ast.BlockStmt:
+			walk(v.List)
+		case *ast.CaseClause:
+			walk(v.Body)
+		case *ast.CommClause:
+			walk(v.Body)
+		}
+		return true
+	})
 }
 
 func gsIsSamplePtr(t types.Type) bool {
@@ -347,11 +434,20 @@ func (s *gsSlicer) text(n ast.Node) string {
 			continue
 		}
 		b.Write(src[at:r.pos])
-		fmt.Fprintf(&b, "\x01%d\x02", s.localIdx[r.obj])
+		if rhs, ok := s.inlineRHS[r.obj]; ok && r.pos >= int(0) && !s.isDef(r) {
+			b.WriteString(s.text(rhs))
+		} else {
+			fmt.Fprintf(&b, "\x01%d\x02", s.localIdx[r.obj])
+		}
 		at = r.end
 	}
 	b.Write(src[at:end.Offset])
 	return strings.Join(strings.Fields(b.String()), " ")
+}
+
+// isDef: the occurrence is the defining one of its object
+func (s *gsSlicer) isDef(r gsLocalRef) bool {
+	return s.p.Fset.Position(r.obj.Pos()).Offset == r.pos
 }
 
 var gsPlaceholderRe = regexp.MustCompile("\x01([0-9]+)\x02")
@@ -482,6 +578,10 @@ func (s *gsSlicer) setterOf(st ast.Stmt) (types.Object, string) {
 func (s *gsSlicer) stmts(list []ast.Stmt, ind string) []string {
 	var out []string
 	for i := 0; i < len(list); {
+		if s.skipStmt[list[i]] {
+			i++
+			continue
+		}
 		o, name := s.setterOf(list[i])
 		if o == nil {
 			out = append(out, s.stmt(list[i], ind)...)
@@ -649,29 +749,34 @@ func (s *gsSlicer) switchLike(hdr string, body *ast.BlockStmt, ind string) []str
 type gsSliceSpec struct {
 	pkg, recv, fn, lean string
 	full                bool // the whole body, normalised, instead of the slice
+	mention             string // only the top-level statements of the body that mention this identifier (normalised)
 }
 
 func gsSlices(t *tr, b *strings.Builder) {
 	specs := []gsSliceSpec{
-		{"github.com/yandex/pandora/components/guns/http", "BaseGun", "Shoot", "sliceBaseShoot", false},
-		{"github.com/yandex/pandora/components/guns/http", "", "autotag", "srcAutotag", true},
-		{"github.com/yandex/pandora/components/guns/http_scenario", "ScenarioGun", "Shoot", "sliceScenarioShoot", false},
-		{"github.com/yandex/pandora/components/guns/http_scenario", "ScenarioGun", "shoot", "sliceScenarioShootLoop", false},
-		{"github.com/yandex/pandora/components/guns/http_scenario", "ScenarioGun", "shootStep", "sliceScenarioShootStep", false},
-		{"github.com/yandex/pandora/components/guns/http_scenario", "ScenarioGun", "reportErr", "sliceScenarioReportErr", false},
-		{"github.com/yandex/pandora/components/guns/grpc", "Gun", "Shoot", "sliceGrpcShoot", false},
-		{"github.com/yandex/pandora/components/guns/grpc", "Gun", "shoot", "sliceGrpcShootInner", false},
-		{"github.com/yandex/pandora/components/guns/grpc/scenario", "Gun", "Shoot", "sliceGrpcScenarioShoot", false},
-		{"github.com/yandex/pandora/components/guns/grpc/scenario", "Gun", "shoot", "sliceGrpcScenarioShootLoop", false},
-		{"github.com/yandex/pandora/components/guns/grpc/scenario", "Gun", "shootStep", "sliceGrpcScenarioShootStep", false},
-		{"github.com/yandex/pandora/core/aggregator/netsample", "", "Acquire", "srcAcquire", true},
-		{"github.com/yandex/pandora/core/aggregator/netsample", "Sample", "AddTag", "srcAddTag", true},
-		{"github.com/yandex/pandora/core/aggregator/netsample", "Sample", "SetID", "srcSetID", true},
-		{"github.com/yandex/pandora/core/aggregator/netsample", "Sample", "SetProtoCode", "srcSetProtoCode", true},
-		{"github.com/yandex/pandora/core/aggregator/netsample", "Sample", "SetErr", "srcSetErr", true},
-		{"github.com/yandex/pandora/components/providers/http/ammo", "GunAmmo", "Request", "srcGunAmmoRequest", true},
-		{"github.com/yandex/pandora/components/providers/http/ammo", "", "NewGunAmmo", "srcNewGunAmmo", true},
-		{"github.com/yandex/pandora/components/providers/http/provider", "Provider", "Acquire", "sliceHTTPProviderAcquire", false},
+		{"github.com/yandex/pandora/components/guns/http", "BaseGun", "Shoot", "sliceBaseShoot", false, ""},
+		{"github.com/yandex/pandora/components/guns/http", "", "autotag", "srcAutotag", true, ""},
+		{"github.com/yandex/pandora/components/guns/http_scenario", "ScenarioGun", "Shoot", "sliceScenarioShoot", false, ""},
+		{"github.com/yandex/pandora/components/guns/http_scenario", "ScenarioGun", "shoot", "sliceScenarioShootLoop", false, ""},
+		{"github.com/yandex/pandora/components/guns/http_scenario", "ScenarioGun", "shootStep", "sliceScenarioShootStep", false, ""},
+		{"github.com/yandex/pandora/components/guns/http_scenario", "ScenarioGun", "reportErr", "sliceScenarioReportErr", false, ""},
+		{"github.com/yandex/pandora/components/guns/grpc", "Gun", "Shoot", "sliceGrpcShoot", false, ""},
+		{"github.com/yandex/pandora/components/guns/grpc", "Gun", "shoot", "sliceGrpcShootInner", false, ""},
+		{"github.com/yandex/pandora/components/guns/grpc/scenario", "Gun", "Shoot", "sliceGrpcScenarioShoot", false, ""},
+		{"github.com/yandex/pandora/components/guns/grpc/scenario", "Gun", "shoot", "sliceGrpcScenarioShootLoop", false, ""},
+		{"github.com/yandex/pandora/components/guns/grpc/scenario", "Gun", "shootStep", "sliceGrpcScenarioShootStep", false, ""},
+		{"github.com/yandex/pandora/core/aggregator/netsample", "", "Acquire", "srcAcquire", true, ""},
+		{"github.com/yandex/pandora/core/aggregator/netsample", "Sample", "AddTag", "srcAddTag", true, ""},
+		{"github.com/yandex/pandora/core/aggregator/netsample", "Sample", "SetID", "srcSetID", true, ""},
+		{"github.com/yandex/pandora/core/aggregator/netsample", "Sample", "SetProtoCode", "srcSetProtoCode", true, ""},
+		{"github.com/yandex/pandora/core/aggregator/netsample", "Sample", "SetErr", "srcSetErr", true, ""},
+		{"github.com/yandex/pandora/components/providers/http/ammo", "GunAmmo", "Request", "srcGunAmmoRequest", true, ""},
+		{"github.com/yandex/pandora/components/providers/http/ammo", "", "NewGunAmmo", "srcNewGunAmmo", true, ""},
+		{"github.com/yandex/pandora/components/providers/http/provider", "Provider", "Acquire", "sliceHTTPProviderAcquire", false, ""},
+		// round 3: which client does the exchange; the pause of a scenario step
+		{"github.com/yandex/pandora/components/guns/http", "noRedirectClient", "Do", "srcNoRedirectClientDo", true, ""},
+		{"github.com/yandex/pandora/components/guns/http_scenario", "ScenarioGun", "shootStep", "srcScenarioPause", true, "Sleep"},
+		{"github.com/yandex/pandora/components/guns/grpc/scenario", "Gun", "shootStep", "srcGrpcScenarioPause", true, "Sleep"},
 	}
 	cache := map[string]*packages.Package{}
 	for _, sp := range specs {
@@ -706,6 +811,22 @@ func gsSlices(t *tr, b *strings.Builder) {
 		if sp.full {
 			kind = "whole body (one statement per entry, whitespace normalised, locals numbered in order of appearance)"
 			lines = gsFullBody(sl, fd.Body.List, "")
+			if sp.mention != "" {
+				kind = "top-level statements mentioning `" + sp.mention + "` (whitespace normalised, locals numbered in order of appearance)"
+				lines = nil
+				for _, st := range fd.Body.List {
+					hit := false
+					ast.Inspect(st, func(n ast.Node) bool {
+						if id, ok := n.(*ast.Ident); ok && id.Name == sp.mention {
+							hit = true
+						}
+						return !hit
+					})
+					if hit {
+						lines = append(lines, sl.text(st))
+					}
+				}
+			}
 		} else {
 			// fixed point: the variables read by the headers the slice keeps are tracked too
 			for iter := 0; iter < 20; iter++ {
@@ -733,6 +854,9 @@ func gsSlices(t *tr, b *strings.Builder) {
 func gsFullBody(s *gsSlicer, list []ast.Stmt, ind string) []string {
 	var out []string
 	for _, st := range list {
+		if s.skipStmt[st] {
+			continue
+		}
 		out = append(out, ind+s.text(st))
 	}
 	return out
